@@ -4,6 +4,14 @@ package mon
 // left unterminated". Used by C09 (timing) and the long-input parts of
 // C01/C02.
 
+import (
+	"sort"
+	"strings"
+	"sync"
+
+	li "github.com/corazawaf/libinjection-go"
+)
+
 func crossPrefix(prefixes []string, units []scaleFam) []scaleFam {
 	var out []scaleFam
 	for _, p := range prefixes {
@@ -56,6 +64,18 @@ func init() {
 	htmlScale = htmlUnits
 	sqlDomain.scale, sqlDomain.scaleBase = sqlScale, sqlUnits
 	htmlDomain.scale, htmlDomain.scaleBase = htmlScale, htmlUnits
+	sqlDomain.aliasCases = sqlAliasCases
+	htmlDomain.extraCases = map[string]func() []string{"attrvals": htmlAttrValCases}
+	sqlDomain.extraCases = map[string]func() []string{"qualified": sqlQualifiedCases, "gluelit": sqlGlueLitCases}
+	htmlDomain.aliasCases = htmlAliasCases
+	sqlDomain.seamPairs = [][2]string{{"sp_password", " --"}, {"1", " --sp_password"}, {"", "' OR 1=1-- "}, {"1 ", "\" or 1=1 #"}, {"1 /*", "*/ union select 1"}, {"1", " union select 1,2"}, {"$$", "$$ or 1=1"}, {"x'", "' or 1=1"}, {"1 --", "\n or 1=1"}}
+	sqlDomain.seamPads = []string{"a", " "}
+	htmlDomain.seamPairs = [][2]string{{"<a title='", "' onclick=x>"}, {"<!--", "--><script>"}, {"", "<script>"}, {"<a ", "onerror=x>"}, {"x", "' onerror='y"}, {"<a href=\"", "\" src=javascript:x>"}, {"<![CDATA[", "]]><svt>"}}
+	htmlDomain.seamPads = []string{"x", " "}
+	sqlDomain.countUnits = []string{"/**/", "--\n", "#\n", "1,", "(", ";", "a ", "'a' "}
+	sqlDomain.countFrames = [][2]string{{"1", "OR 1=1"}, {"1 ", " union select 1"}, {"'", "' or 1=1"}, {"", ""}, {"1 or 1=1", ""}, {"x' and ", "1=1 -- "}, {"1", "--"}, {"'a'", "#"}}
+	htmlDomain.countUnits = []string{"<b>", "x=y ", "<!---->", "</b>", "&lt;", "<b x=y>"}
+	htmlDomain.countFrames = [][2]string{{"", "<script>"}, {"<a ", "onerror=x>"}, {"", ""}, {"<a ", "href=javascript:x>"}}
 }
 
 var sqlScale = crossPrefix([]string{"", "'", "\"", "1 '"}, sqlUnits)
@@ -83,3 +103,154 @@ var htmlUnits = []scaleFam{
 }
 
 var htmlScale = htmlUnits
+
+var sqlAliasOnce, htmlAliasOnce sync.Once
+var sqlAliasList, htmlAliasList []string
+
+// sqlAliasCases: every single-word key of the live keyword table (sorted) with
+// one letter written as its non-ASCII alias, alone and in three frames.
+func sqlAliasCases() []string {
+	sqlAliasOnce.Do(func() {
+		var keys []string
+		for k, v := range keywords() {
+			if v == 'F' || strings.ContainsAny(k, " ") || len(k) > 24 {
+				continue
+			}
+			keys = append(keys, k)
+		}
+		sort.Strings(keys)
+		frames := []string{"%s", "1 %s 1", "%s(1)", "1 %s select 1"}
+		for n, k := range keys {
+			for j, sp := range aliasSpellings(k) {
+				f := frames[(n+j)%len(frames)]
+				sqlAliasList = append(sqlAliasList, strings.Replace(f, "%s", sp, 1), strings.Replace(frames[0], "%s", strings.ToLower(sp), 1))
+			}
+		}
+	})
+	return sqlAliasList
+}
+
+// htmlAliasCases: every tag, attribute and event name of the live tables and
+// the script-capable URL schemes, one letter written as its alias.
+func htmlAliasCases() []string {
+	htmlAliasOnce.Do(func() {
+		add := func(w string, frames ...string) {
+			for _, sp := range append(aliasSpellings(w), aliasSpellings(strings.ToLower(w))...) {
+				for _, f := range frames {
+					htmlAliasList = append(htmlAliasList, strings.Replace(f, "%s", sp, 1))
+				}
+			}
+		}
+		for _, t := range li.VerifBlackTags() {
+			add(t, "<%s>", "<%s x>", "'><%s>")
+		}
+		for _, a := range li.VerifBlacks() {
+			add(a.Name, "<a %s=x>", "<a %s=javascript:x>", "x' %s=javascript:x ")
+		}
+		for _, e := range li.VerifBlackEvents() {
+			add("on"+e.Name, "<a %s=x>", " %s=x", "x\" %s=x ")
+		}
+		for _, sch := range []string{"javascript", "vbscript", "data", "view-source", "livescript", "mocha"} {
+			add(sch, "<a href=%s:x>", "<a href='%s:x'>", "<a href=\" %s:x\">")
+		}
+		add("style", "<a %s=x>", " %s=x")
+		add("doctype", "<!%s>", "<!%s html>")
+	})
+	return htmlAliasList
+}
+
+var attrValOnce, qualOnce, glueOnce sync.Once
+var attrValList, qualList, glueList []string
+
+// htmlAttrNames: attribute names of HTML, SVG and MathML elements beyond the
+// ones the library's tables list - names a value-format-aware rule might be
+// attached to.
+var htmlAttrNames = strings.Fields(`accept accept-charset accesskey action align allow alt archive async attributename attributetype autocomplete autofocus
+	autoplay background begin bgcolor border by calcmode charset cite class classid code codebase color cols colspan content contenteditable coords
+	crossorigin csp d data data-x datetime declare default defer dir dirname download draggable dur encoding enctype end fill filter for form
+	formaction formenctype formmethod formtarget from handler headers height hidden high href hreflang http-equiv icon id imagesizes imagesrcset
+	integrity is ismap itemprop itemtype keytimes keysplines kind label lang language list longdesc loop low lowsrc manifest marker-start mask max
+	maxlength media method min name nonce onx open optimum pattern ping placeholder points poster preload profile rel repeatcount restart rev rows
+	rowspan sandbox scope seeknearest shape size sizes slot span src srcdoc srclang srcset standby start step style tabindex target title to
+	transform type usemap value values version viewbox width wrap xlink:actuate xlink:href xlink:show xml:base xml:lang xml:space xmlns xmlns:xlink`)
+
+// htmlValueShapes: values whose list, pair or reference syntax is cut short,
+// doubled or empty.
+var htmlValueShapes = []string{"", ";", ";;", ",", ",,", "0;;url=/a", "0;url=/a", "0; url=javascript:x", " ;x", ";x;", "x;", "a,b", "a, b 2x", ",a 1x,", "a  2x,,b", "url(x)", "url(", ":", "::", ":x", "x:", "&", "&#", "&#;", "&#x;", "&x", "&;",
+	"%", "%%", "%2", "\\", "{}", "{", "a=b=c", "=", "#", "#x", "?", "//", "/", "javascript:", "x javascript:x", "  ", "\t\n", "\x00", "\x00;\x00", "(", "()", "1 2 3 4", "0 0 0", "a;b;c;d;e;f;g;h", ";;;;;;;;;;;;;;;;", ",,,,,,,,,,,,,,,,",
+	"text/html;charset=utf-7", "text/html;;", "refresh", "a:b:c", "a;b=c;d=", "x, y z, ", "-", "--", "+", "0", "-1", "1e9", "99999999999999999999", "*", "a|b", "||", "a&b", "a&&", "[]", "[", "]]>", "-->", "?>", "%>", "'", "\"", "`"}
+
+func htmlAttrValCases() []string {
+	attrValOnce.Do(func() {
+		names := append([]string{}, htmlAttrNames...)
+		for _, a := range li.VerifBlacks() {
+			names = append(names, strings.ToLower(a.Name))
+		}
+		for n, name := range names {
+			for j, v := range htmlValueShapes {
+				q := []string{"\"", "'", "`", ""}[(n+j)%4]
+				if q == "" && (strings.ContainsAny(v, " \t\n>") || v == "") {
+					q = "\""
+				}
+				if strings.Contains(v, q) && q != "" {
+					q = map[string]string{"\"": "'", "'": "\"", "`": "\""}[q]
+				}
+				switch (n + j) % 3 {
+				case 0:
+					attrValList = append(attrValList, "<x "+name+"="+q+v+q+">")
+				case 1:
+					attrValList = append(attrValList, "<meta "+strings.ToUpper(name)+" = "+q+v+q+" x>")
+				default:
+					attrValList = append(attrValList, " "+name+"="+q+v+q+" ")
+				}
+			}
+		}
+	})
+	return attrValList
+}
+
+// sqlQualifiedCases: every word of the live keyword table behind an owner,
+// schema or database qualifier.
+func sqlQualifiedCases() []string {
+	qualOnce.Do(func() {
+		var keys []string
+		for k, v := range keywords() {
+			if v == 'F' || strings.ContainsAny(k, " ") || len(k) > 28 {
+				continue
+			}
+			keys = append(keys, strings.ToLower(k))
+		}
+		sort.Strings(keys)
+		owners := []string{"sys.", "dbo.", "public.", "pg_catalog.", "master..", "information_schema.", "mysql.", "sys.x.", "x.sys.", "SYS.", "sys .", "[dbo].", "`sys`.", "\"sys\".", "a.b.c."}
+		frames := []string{"%s(1)", "select %s from t", "%s", "1 union select %s(2)"}
+		for n, k := range keys {
+			for j, o := range owners {
+				qualList = append(qualList, strings.Replace(frames[(n+j)%len(frames)], "%s", o+k, 1))
+			}
+		}
+	})
+	return qualList
+}
+
+// sqlGlueLitCases: every kind of string literal glued to what precedes it
+// (number, hex, word, variable, closing bracket, operator) and followed by
+// white space of every kind and another literal.
+func sqlGlueLitCases() []string {
+	glueOnce.Do(func() {
+		lits := []string{"'a'", "\"a\"", "`a`", "$$a$$", "$t$a$t$", "q'(a)'", "nq'[a]'", "n'a'", "e'a'", "x'61'", "b'1'", "u&'a'", "_utf8'a'", "$a$ or 1=1 -- $a$", "$$ or 1=1 -- $$", "q'! or 1=1 -- !'"}
+		pres := []string{"1", "0x1F", "1.5", "1e5", "1.", ".5", "0b1", "a", "a1", "_", "@v", "@@v", "1)", "a]", "}", "1=", "1,", ";", "\\N", "1 ", "select", "x.", "1e", "0x", "$1", "1$", "a$", "'b'", "\"b\""}
+		betw := []string{"", " ", "\n", "\r\n", "\r", " \n ", "\t", "\v", "\f", "\xa0", "\x00", "/**/", "--\n", "\n\n", " \r\n\t"}
+		tails := []string{"", " union select 1 -- ", " or 1=1", "x"}
+		for i, l := range lits {
+			for j, p := range pres {
+				glueList = append(glueList, p+l+tails[(i+j)%len(tails)])
+			}
+			for j, b := range betw {
+				for k, l2 := range lits[:6] {
+					glueList = append(glueList, l+b+l2+tails[(i+j+k)%len(tails)], "1 or "+l+b+l2[:1]+tails[(i+j+k+1)%len(tails)])
+				}
+			}
+		}
+	})
+	return glueList
+}
